@@ -680,7 +680,7 @@ func genChainOp(t *rapid.T, healthyPossible bool) chainOp {
 	// curated unambiguous misuses: an error is required
 	case 17:
 		col := "never-created-col"
-		k := rapid.IntRange(0, 10).Draw(t, "unknowncol")
+		k := rapid.IntRange(0, 12).Draw(t, "unknowncol")
 		ops := []chainOp{
 			{desc: "Filter on unknown column", run: func(qf qframe.QFrame) qframe.QFrame {
 				return qf.Filter(qframe.Filter{Column: col, Comparator: "=", Arg: 1})
@@ -707,6 +707,12 @@ func genChainOp(t *rapid.T, healthyPossible bool) chainOp {
 			{desc: "Eval with unknown column", run: func(qf qframe.QFrame) qframe.QFrame {
 				return qf.Eval("n1", qframe.Expr("abs", types.ColumnName(col)))
 			}},
+			{desc: "Eval of a bare reference to an unknown column into a destination of the same name", run: func(qf qframe.QFrame) qframe.QFrame {
+				return qf.Eval(col, qframe.Val(types.ColumnName(col)))
+			}},
+			{desc: "Eval of a bare reference to an unknown column", run: func(qf qframe.QFrame) qframe.QFrame {
+				return qf.Eval("n1", qframe.Val(types.ColumnName(col)))
+			}},
 		}
 		o := ops[k]
 		o.mustErr = true
@@ -731,7 +737,9 @@ func genChainOp(t *rapid.T, healthyPossible bool) chainOp {
 				return qf.GroupBy(groupby.Columns("b1")).Aggregate(qframe.Aggregation{Fn: "foo", Column: "i1"})
 			}},
 			{desc: "unknown Eval function", run: func(qf qframe.QFrame) qframe.QFrame {
-				return qf.Eval("n1", qframe.Expr("foo", types.ColumnName("i1")))
+				// (a name nobody registered, or a built-in's name in another letter case: function names are exact)
+				name := []string{"foo", "ABS", "Abs", "STR", "abs "}[len(vc)%5]
+				return qf.Apply(qframe.Instruction{Fn: 1, DstCol: "ti"}).Eval("n1", qframe.Expr(name, types.ColumnName("ti")), eval.EvalContext(eval.NewDefaultCtx()))
 			}},
 			{desc: "unknown built-in apply function", run: func(qf qframe.QFrame) qframe.QFrame {
 				return qf.Apply(qframe.Instruction{Fn: "foo", DstCol: "n1", SrcCol1: "s1"})
